@@ -282,3 +282,46 @@ func HarnessE6() {
 	verifAssert(enc >= 0, "E6.nonneg")
 	verifReach("E6.end")
 }
+
+// HarnessE3Len: one well-formed-looking line for a CONCRETE length character lb (sweep covers
+// over-long length bytes up to 0xFF) with symbolic data characters inside the alphabet: the
+// decoder must not panic; when it accepts, the decoded length is what the length character says
+// and the bytes agree with the six-bit reference.
+func HarnessE3Len() {
+	lb := verifParam("lb")
+	nDec := lb - 32
+	if lb == '`' {
+		nDec = 0 // the backtick is the zero-length line
+	}
+	k := (nDec + 2) / 3
+	L := 1 + 4*k
+	line := nondetBytes(L, 0)
+	line[0] = byte(lb)
+	for i := 1; i < L; i++ {
+		line[i] = 32 + line[i]&63 // inside the alphabet (value range visible to the engine)
+	}
+	keep := append([]byte{}, line...)
+	dec, err := AppendDecode(nil, line)
+	verifAssert(sameBytes(line, keep), "E3N.src-unchanged")
+	verifAssert(err == nil, "E3N.wellformed-line-accepted")
+	if err != nil {
+		return
+	}
+	verifAssert(len(dec) == nDec, "E3N.decoded-length-is-what-the-length-character-says")
+	verifAssert(len(dec) <= MaxDecodedLen(line), "E3N.maxdecodedlen")
+	// six-bit reference for the data part
+	want := []byte{}
+	for g := 0; g < k; g++ {
+		var w uint32
+		for j := 0; j < 4; j++ {
+			w = w<<6 | uint32((line[1+4*g+j]-32)&63)
+		}
+		want = append(want, byte(w>>16), byte(w>>8), byte(w))
+	}
+	want = want[:nDec]
+	if verifCanary() && len(want) > 0 {
+		want[len(want)-1] ^= 1
+	}
+	verifAssert(sameBytes(dec, want), "E3N.decoded-bytes")
+	verifReach("E3N.ok")
+}
